@@ -27,7 +27,7 @@ META = dict(
          "missing observation -> flag in {MISSING} (+UNKNOWN where the test is undefined irrespective of the value: "
          "spike end points, first speed point, single-point density, climatology point no member matches, attenuated "
          "window below the minimum); present observation flagged MISSING -> a needed input (own depth/coordinates, the "
-         "neighbour it is differenced against) must be missing. non-trivial = the case contains a missing marker",
+         "neighbour it is differenced against) must be missing. + 2-D inputs in C / Fortran / transposed layout (NaN and masked) for the pointwise tests: MISSING must sit on the missing elements. non-trivial = the case contains a missing marker",
     bounds={"quick": {"max_len": 4}, "thorough": {"max_len": 5}},
     not_judged=["which of GOOD/SUSPECT/FAIL a present point gets (C03-C14)",
                 "positions with exactly one coordinate missing count as present (C14 makes them FAIL)"],
@@ -75,9 +75,39 @@ V1, V2 = 1.0, 30.0
 CSECS = [alpha.T0 + 14 * DAY + i * 40 * DAY for i in range(8)]
 
 
+def check_layout(case):
+    from ioos_qc import axds, qartod
+
+    base = np.array([[np.nan if v is None else v for v in row] for row in case["grid"]], dtype="float64")
+    arr = {"C": base, "F": np.asfortranarray(base), "T": np.ascontiguousarray(base.T).T}[case["order"]]
+    if case["masked"]:
+        arr = np.ma.MaskedArray(np.where(np.isnan(arr), 999.0, arr), mask=np.isnan(arr))
+        if case["order"] == "F":
+            arr = np.ma.MaskedArray(np.asfortranarray(arr.data), mask=np.asfortranarray(arr.mask))
+    which = case["which"]
+    if which == "gross":
+        out = alpha.call(qartod.gross_range_test, arr, [0, 50], suspect_span=[0, 10])
+    elif which == "valid":
+        out = alpha.call(axds.valid_range_test, arr, [0, 50])
+    else:
+        out = alpha.call(qartod.location_test, arr, arr.copy(), bbox=[0, 0, 60, 60])
+    if isinstance(out, alpha.Raised):
+        return [V(f"{PROP}|{which}|2d-{case['order']}|symptom=raises:{out.name}", f"{which} raised {out.name} on a 2-D {case['order']}-ordered array", None, repr(out))], True, None, 0
+    got = np.ma.getdata(np.asanyarray(out))
+    vs = []
+    if got.shape != base.shape:
+        vs.append(V(f"{PROP}|{which}|2d-{case['order']}|symptom=shape", f"flags of shape {got.shape} for input {base.shape}", list(base.shape), list(got.shape)))
+    else:
+        miss = np.isnan(base)
+        if not np.array_equal(got == R.MISSING, miss):
+            vs.append(V(f"{PROP}|{which}|2d-{case['order']}|masked={case['masked']}|symptom=missing-flag-on-wrong-element",
+                        f"{which} on a 2-D {case['order']}-ordered array: MISSING flags do not sit on the missing elements", miss.astype(int).tolist(), got.tolist()))
+    return vs, True, tuple(got.reshape(-1).tolist()), 0
+
+
 def tasks(tier):
     n = NMAX[tier]
-    ts = []
+    ts = [("layout",)]
     for name in SERIES_TESTS:
         for ci in range(len(G.SPECS[name]["cfgs"])):
             ts.append(("series", name, ci, n))
@@ -153,6 +183,8 @@ def needed_missing(name, case, i):
 
 
 def check_case(case):
+    if "grid" in case:
+        return check_layout(case)
     name, cfg, how = case["fn"], case["cfg"], case["how"]
     spec = G.SPECS[name]
     pos = spec["kind"] == "position"
@@ -203,6 +235,16 @@ def replay(case):
 
 def run_task(task, acc):
     kind = task[0]
+    if kind == "layout":
+        def gen():
+            grids = [[[1.0, None, 3.0], [4.0, 5.0, 60.0]], [[None, 3.0], [4.0, None], [2.0, 1.0]], [[1.0, 2.0, None, 0.0]], [[None], [2.0], [70.0]]]
+            for g in grids:
+                for order in ("C", "F", "T"):
+                    for which in ("gross", "valid", "location"):
+                        for masked in (False, True):
+                            yield dict(grid=g, order=order, which=which, masked=masked)
+        run_cases(acc, gen(), check_case)
+        return
     if kind == "series":
         _, name, ci, n = task
         cfg = G.SPECS[name]["cfgs"][ci]
